@@ -48,6 +48,7 @@ pub mod verif_facade {
                         format!("differs: got {:?} twice {:?} reference {:?}", once, s.as_bytes(), want)
                     }
                 }
+                "sched" => crate::work::verif_sched::sched(&args),
                 "load" => crate::load::verif_load_text(arg(0)),
                 "canon" => {
                     let mut s = unsafe { String::from_utf8_unchecked(arg(0)) };
